@@ -2,7 +2,7 @@ use bitcoin::hashes::{sha256d, Hash};
 use std::collections::HashMap;
 use std::convert::TryInto;
 use std::fmt;
-use std::io::Cursor;
+use std::io::{Cursor, Read};
 use std::path::Path;
 
 use byteorder::ReadBytesExt;
@@ -11,8 +11,10 @@ use rusty_leveldb::{LdbIterator, Options, DB};
 use crate::common::Result;
 use crate::ParserOptions;
 
-const BLOCK_VALID_CHAIN: u64 = 4;
+const BLOCK_VALID_MASK: u64 = 7;
 const BLOCK_HAVE_DATA: u64 = 8;
+const BLOCK_HAVE_UNDO: u64 = 16;
+const BLOCK_FAILED_MASK: u64 = 32 | 64;
 
 /// Holds the index of longest valid chain
 pub struct ChainIndex {
@@ -104,6 +106,7 @@ pub struct BlockIndexRecord {
     pub block_hash: sha256d::Hash,
     pub blk_index: u64,
     pub data_offset: u64, // offset within the blk file
+    prev_hash: sha256d::Hash,
     version: u64,
     height: u64,
     status: u64,
@@ -119,11 +122,27 @@ impl BlockIndexRecord {
         let height = read_varint(&mut reader)?;
         let status = read_varint(&mut reader)?;
         let tx_count = read_varint(&mut reader)?;
-        let blk_index = read_varint(&mut reader)?;
-        let data_offset = read_varint(&mut reader)?;
+        // nFile, nDataPos and nUndoPos are only serialized if the status says so
+        let blk_index = match status & (BLOCK_HAVE_DATA | BLOCK_HAVE_UNDO) > 0 {
+            true => read_varint(&mut reader)?,
+            false => 0,
+        };
+        let data_offset = match status & BLOCK_HAVE_DATA > 0 {
+            true => read_varint(&mut reader)?,
+            false => 0,
+        };
+        if status & BLOCK_HAVE_UNDO > 0 {
+            read_varint(&mut reader)?;
+        }
+        // block header follows: version (4 bytes), hash of the previous block (32 bytes), ...
+        let mut header_version = [0u8; 4];
+        reader.read_exact(&mut header_version)?;
+        let mut prev_hash = [0u8; 32];
+        reader.read_exact(&mut prev_hash)?;
 
         Ok(BlockIndexRecord {
             block_hash: sha256d::Hash::from_byte_array(block_hash),
+            prev_hash: sha256d::Hash::from_byte_array(prev_hash),
             version,
             height,
             status,
@@ -131,6 +150,15 @@ impl BlockIndexRecord {
             blk_index,
             data_offset,
         })
+    }
+}
+
+impl BlockIndexRecord {
+    /// True if the block data is stored on disk and neither the block nor one of its ancestors
+    /// failed validation.
+    #[inline]
+    fn is_usable(&self) -> bool {
+        self.status & BLOCK_HAVE_DATA > 0 && self.status & BLOCK_FAILED_MASK == 0
     }
 }
 
@@ -167,7 +195,7 @@ pub fn verif_read_varint(bytes: &[u8]) -> Option<(u64, u64)> {
 pub fn get_block_index(path: &Path) -> Result<HashMap<u64, BlockIndexRecord>> {
     info!(target: "index", "Reading index from {} ...", path.display());
 
-    let mut block_index = HashMap::with_capacity(900000);
+    let mut records = HashMap::with_capacity(900000);
     let mut db_iter = DB::open(path, Options::default())?.new_iter()?;
     let (mut key, mut value) = (vec![], vec![]);
 
@@ -177,13 +205,57 @@ pub fn get_block_index(path: &Path) -> Result<HashMap<u64, BlockIndexRecord>> {
             let record = BlockIndexRecord::from(&key[1..], &value)?;
             #[cfg(rbp_verif)]
             crate::verif::ev("idx_rec", &record.verif_json());
-            if record.status & (BLOCK_VALID_CHAIN | BLOCK_HAVE_DATA) > 0 {
-                block_index.insert(record.height, record);
-            }
+            records.insert(record.block_hash, record);
         }
     }
+    let block_index = select_active_chain(records);
     info!(target: "index", "Got longest chain with {} blocks ...", block_index.len());
     Ok(block_index)
+}
+
+/// The index holds every block header the node has ever seen: stale forks, blocks which failed
+/// validation and headers whose block data never arrived. The active chain is the ancestry of
+/// the highest block which has its data on disk and did not fail, provided the same is true for
+/// all its ancestors. Equal heights are decided by the validity level reached (a block that was
+/// once connected beats one that never was), then by hash to stay deterministic.
+fn select_active_chain(
+    mut records: HashMap<sha256d::Hash, BlockIndexRecord>,
+) -> HashMap<u64, BlockIndexRecord> {
+    let mut tips: Vec<&BlockIndexRecord> = records.values().filter(|r| r.is_usable()).collect();
+    tips.sort_by_key(|r| {
+        std::cmp::Reverse((r.height, r.status & BLOCK_VALID_MASK, r.block_hash))
+    });
+
+    let mut chain: Vec<sha256d::Hash> = Vec::new();
+    for tip in tips {
+        chain.clear();
+        let mut cur = tip;
+        let connected = loop {
+            if !cur.is_usable() {
+                break false;
+            }
+            chain.push(cur.block_hash);
+            if cur.height == 0 {
+                break true;
+            }
+            match records.get(&cur.prev_hash) {
+                Some(prev) if prev.height + 1 == cur.height => cur = prev,
+                Some(_) => break false,
+                // The ancestors are not part of this index, accept what is there
+                None => break true,
+            }
+        };
+        if connected {
+            break;
+        }
+        chain.clear();
+    }
+
+    chain
+        .iter()
+        .filter_map(|hash| records.remove(hash))
+        .map(|record| (record.height, record))
+        .collect()
 }
 
 #[inline]
